@@ -1,45 +1,55 @@
+mod decode;
 mod dest;
+mod driver;
 mod elfgen;
+mod evidence;
 mod gen;
 mod interpose;
 mod kernel;
+mod oracle;
+mod profiles;
 mod rng;
 mod run;
 mod scenario;
+mod shrink;
 mod syscalls;
 mod workloads;
 
+fn usage() -> i32 {
+    eprintln!("usage: mdsim check <ID> <quick|thorough> | replay <file> | worker ... | one <ID> <seed> <idx> | selftest | show <ID> <idx>");
+    2
+}
+
 fn main() {
     run::install_panic_hook();
-    let args: Vec<String> = std::env::args().collect();
-    if args.get(1).map(|s| s.as_str()) == Some("spike") {
-        let mut r = rng::Rng::new(1);
-        let b = gen::build_world(&mut r, &gen::WorldCfg::default());
-        let opts = scenario::Opts { blamed: gen::PID, ..Default::default() };
-        let sc = gen::simple_dump_scenario("C01", 1, "spike", b, opts);
-        let t0 = std::time::Instant::now();
-        let n = 200;
-        let mut last = None;
-        for _ in 0..n {
-            let res = run::run(&sc, &run::RunOpts { trace: false, ..Default::default() });
-            last = Some(res);
-        }
-        let dt = t0.elapsed();
-        let res = run::run(&sc, &run::RunOpts { trace: true, ..Default::default() });
-        for l in res.kernel.trace.as_ref().unwrap().iter().take(400) {
-            println!("{}", l);
-        }
-        let res = last.unwrap();
-        let d = &res.dumps[0];
-        match &d.result {
-            run::DumpRes::Ok(v) => println!("OK {} bytes, dest {} bytes", v.len(), d.dest.data.len()),
-            run::DumpRes::Err(e) => println!("ERR {}", e),
-            run::DumpRes::Panic(p) => println!("PANIC {}", p),
-        }
-        println!("calls {} hash {:x} per-run {:?}", res.kernel.seq, res.kernel.trace_hash, dt / n);
-        if let run::DumpRes::Ok(v) = &d.result {
-            std::fs::write("/tmp/spike.dmp", v).unwrap();
-        }
-        println!("{}", serde_json::to_string(&sc).unwrap().len());
+    if let Err(e) = decode::selfcheck_sizes() {
+        eprintln!("HARNESS-ERROR: {}", e);
+        std::process::exit(2);
     }
+    let a: Vec<String> = std::env::args().collect();
+    let code = match a.get(1).map(|s| s.as_str()) {
+        Some("check") if a.len() >= 3 => {
+            let tier = std::env::var("VERIF_TIER").ok().or_else(|| a.get(3).cloned()).unwrap_or_else(|| "quick".into());
+            driver::check(&a[2], &tier)
+        }
+        Some("worker") if a.len() >= 10 => driver::worker(
+            &a[2],
+            a[3].parse().unwrap(),
+            a[4].parse().unwrap(),
+            a[5].parse().unwrap(),
+            a[6].parse().unwrap(),
+            &a[7],
+            a[8].parse().unwrap(),
+            a[9] == "1",
+        ),
+        Some("replay") if a.len() >= 3 => driver::replay(&a[2]),
+        Some("one") if a.len() >= 5 => driver::one(&a[2], a[3].parse().unwrap(), a[4].parse().unwrap()),
+        Some("show") if a.len() >= 4 => {
+            let sc = profiles::generate(&a[2], driver::verif_seed(), a[3].parse().unwrap());
+            println!("{}", serde_json::to_string_pretty(&sc).unwrap());
+            0
+        }
+        _ => usage(),
+    };
+    std::process::exit(code);
 }
